@@ -37,11 +37,13 @@ CONSTANTS
   Scales,       \* set of plate scales to explore, e.g. {1} or {1, 2}
   Plus, Times,  \* the semiring (op names)
   LeafKind,     \* "lin" | "log" | "nonneg" | "bool"
+  Param,        \* TRUE: the first factor depends on a free real parameter x (never eliminated)
   Tag
 
 VARIABLE g     \* the problem: [fs |-> sequence of [vs, ps], elim |-> set of names]
 
-RP == <<Q(-1, 1), Zero, Q(1, 2), Q(2, 1)>>
+RP == IF LeafKind = "log" \/ LeafKind = "nonneg" THEN <<Q(1, 2), One, Q(2, 1), Q(3, 1)>>
+      ELSE <<Q(-1, 1), Zero, Q(1, 2), Q(2, 1)>>
 VN == <<"a", "b">>
 PN == <<"p", "q">>
 
@@ -70,6 +72,17 @@ FactorTerm(f, idx) ==
       n == SeqProd([k \in 1..Len(ins) |-> ins[k][2]])
   IN [c |-> "Ten", ins |-> ins, dt |-> IF LeafKind = "bool" THEN 2 ELSE 0, sh |-> <<>>,
       data |-> [k \in 1..n |-> LeafValue(idx, k)]]
+
+\* the factor as the harness receives it: the first one times x (times log x for log-valued
+\* leaves) when the cfg asks for a free real parameter.  Inside an eliminated plate of size n
+\* the parameter therefore enters the result as x^n (n log x).
+ParamTerm == IF LeafKind = "log"
+             THEN [c |-> "Un", op |-> [n |-> "log", p |-> <<>>], arg |-> [c |-> "Var", name |-> "x", dom |-> RealD]]
+             ELSE [c |-> "Var", name |-> "x", dom |-> RealD]
+FactorSym(f, idx) ==
+  IF Param /\ idx = 1
+  THEN [c |-> "Bin", op |-> [n |-> Times, p |-> <<>>], l |-> FactorTerm(f, idx), r |-> ParamTerm]
+  ELSE FactorTerm(f, idx)
 
 -----------------------------------------------------------------------------
 (* the oracle *)
@@ -109,8 +122,8 @@ Instance(p, k, asg) ==
       subs == [j \in 1..Len(eps) |-> <<eps[j], [c |-> "Num", v |-> RInt(asg[eps[j]] % PlateSize), dt |-> PlateSize]>>]
               \o [j \in 1..Len(svs) |->
                     <<svs[j], [c |-> "Var", name |-> CopyName(p, svs[j], asg), dom |-> BintD(VarSize)]>>]
-  IN IF subs = <<>> THEN FactorTerm(f, k)
-     ELSE [c |-> "Sub", arg |-> FactorTerm(f, k), subs |-> subs]
+  IN IF subs = <<>> THEN FactorSym(f, k)
+     ELSE [c |-> "Sub", arg |-> FactorSym(f, k), subs |-> subs]
 
 Instances(p, k) ==
   LET asgs == PlateAsgs(p, Pick(PlateNames, p.fs[k].ps \cap ElimPlates(p)))
@@ -187,14 +200,15 @@ Init == g \in Problems
 Next == UNCHANGED g
 Spec == Init /\ [][Next]_g
 
-PtsOf(ins) == [k \in 1..Len(ins) |-> <<>>]
+PtsOf(ins) == [k \in 1..Len(ins) |->
+                 IF ins[k][2].dt = 0 THEN [j \in 1..Len(RealPts) |-> RealSample(ins[k][2].sh, j)] ELSE <<>>]
 
 Emit ==
   LET u == Ann(Unrolled(g))
       tb == Table(u)
   IN TabDefined(tb) =>
      PrintT(ToJson([tag |-> Tag, plus |-> Plus, times |-> Times,
-                    factors |-> [k \in 1..Len(g.fs) |-> FactorTerm(g.fs[k], k)],
+                    factors |-> [k \in 1..Len(g.fs) |-> FactorSym(g.fs[k], k)], param |-> Param,
                     elim |-> g.elim, plates |-> Range(PlateNames), scales |-> g.sc,
                     comparable |-> Comparable(g),
                     splits |-> {E1 \in SUBSET g.elim : ValidSplit(g, E1)},
@@ -204,5 +218,5 @@ Emit ==
 \* model-level sanity: the oracle never mentions a copy name among its inputs, and its
 \* inputs are exactly the mentioned names that are not eliminated
 Inv_OracleInputs ==
-  LET u == Ann(Unrolled(g)) IN Names(u.ti) = Mentioned(g) \ g.elim
+  LET u == Ann(Unrolled(g)) IN Names(u.ti) = (Mentioned(g) \ g.elim) \cup (IF Param THEN {"x"} ELSE {})
 =============================================================================
